@@ -107,6 +107,9 @@ func flushViolations(res *lib.Result) {
 
 type runner struct {
 	exhaustive bool // crash the current root run at EVERY boundary, with and without re-delivery
+	minInput   int  // first level: only crash points within the effects of script inputs >= minInput
+	deep       bool // second level exhaustive, too (long-run family)
+	noFault    bool
 	f          lib.Flags
 	res        *lib.Result
 	drv        *lib.Driver
@@ -498,11 +501,14 @@ func (rn *runner) explore(cfg *Cfg, script []Input, startIdx int, ep *epoch, lin
 		if depth > 0 {
 			maxK = rn.f.Scale(3, 5)
 		}
-		ks := make([]int, n+1)
-		for i := range ks {
-			ks[i] = i
+		var ks []int
+		for i := 0; i <= n; i++ {
+			if depth == 0 && rn.minInput > 0 && i < n && ep.effects[i].Input < rn.minInput {
+				continue
+			}
+			ks = append(ks, i)
 		}
-		if len(ks) > maxK && !(rn.exhaustive && depth == 0) {
+		if len(ks) > maxK && !(rn.exhaustive && depth == 0) && !(rn.deep && depth == 1) {
 			lib.Shuffle(r, ks)
 			ks = ks[:maxK]
 		}
@@ -813,6 +819,21 @@ func (rn *runner) rootCase(cfg *Cfg, script []Input, genLen int, r *lib.RNG, fix
 		rn.res.Hit("stopped-by-context")
 	}
 	rp := Replay{Cfg: *cfg, Script: script}
+	if rn.deep {
+		// did the store's periodic cleanup run (first log file removed => numbering gap)?
+		names, _ := filepath.Glob(filepath.Join(ep.closedSnap, "*", "*"))
+		first := false
+		for _, n := range names {
+			if strings.HasPrefix(filepath.Base(n), "000001.") {
+				first = true
+			}
+		}
+		if !first && len(names) > 0 {
+			rn.res.Hit("long-run-log-file-000001-removed-by-cleanup")
+		} else {
+			rn.res.Note("long run: the log store's cleanup did not remove the first log file (%d files)", len(names))
+		}
+	}
 	// statistics of the uncrashed run
 	for _, in := range script {
 		rn.res.Hit("input-" + in.K)
@@ -838,7 +859,9 @@ func (rn *runner) rootCase(cfg *Cfg, script []Input, genLen int, r *lib.RNG, fix
 	if ep.chainNow > cfg.C0 {
 		rn.res.Hit(fmt.Sprintf("heights-committed-%d", min(int(ep.chainNow-cfg.C0), 4)))
 	}
-	rn.res.Sample(6, map[string]any{"cfg": cfg, "script": scriptToks(script), "effects": effToks(ep.effects)})
+	if len(script) < 100 {
+		rn.res.Sample(6, map[string]any{"cfg": cfg, "script": scriptToks(script), "effects": effToks(ep.effects)})
+	}
 	rn.res.SetExtra("driver_timeout_channel_found", ep.timeoutCh != nil)
 	// correspondence of the uncrashed run
 	rn.ask(fmt.Sprintf("reset %d", cfg.C0))
@@ -858,6 +881,9 @@ func (rn *runner) rootCase(cfg *Cfg, script []Input, genLen int, r *lib.RNG, fix
 		return
 	}
 	rn.graceful(cfg, script, ep)
+	if rn.noFault {
+		return
+	}
 	// fault injection at (a sample of) the flushes and commit deliveries of the run
 	var fk []int
 	for k, e := range ep.effects {
@@ -869,6 +895,40 @@ func (rn *runner) rootCase(cfg *Cfg, script []Input, genLen int, r *lib.RNG, fix
 	for i := 0; i < len(fk) && i < rn.f.Scale(2, 6); i++ {
 		rn.faulty(cfg, script, ep, fk[i])
 	}
+}
+
+// longRun: the node (never proposer, 3 equal validators, quorum = own vote + one peer) is driven
+// through `heights` committed heights on the happy path within ONE process lifetime — enough for
+// the log store's periodic cleanup (every 256 prune records: watermark file, rotation, removal of
+// obsolete log files, which leaves a gap in the file numbering) — and then into a further height
+// that does not commit: proposal, polka, precommit, round change, second proposal. The crash
+// points of that last height (first level exhaustive, second level exhaustive) include "restart,
+// flush again, restart again" on a log directory that went through the cleanup.
+func longRun(heights int) (*Cfg, []Input, int) {
+	cfg := &Cfg{Powers: []uint64{1, 1, 1}, Tbl: []int{0, 1}, PMul: 1, Me: 2, C0: 0, AppMode: "stable"}
+	var s []Input
+	val := func(h uint64) uint64 {
+		v := h*1000 + 600
+		for !validVal(v) {
+			v++
+		}
+		return v
+	}
+	for h := uint64(1); h <= uint64(heights); h++ {
+		pr := cfg.proposerIdx(h, 0)
+		s = append(s, Input{K: "p", H: h, R: 0, Sender: pr, VR: -1, Val: val(h)},
+			Input{K: "v", H: h, R: 0, Sender: 0, Val: val(h)}, Input{K: "c", H: h, R: 0, Sender: 0, Val: val(h)})
+	}
+	last := len(s)
+	h := uint64(heights + 1)
+	s = append(s, Input{K: "p", H: h, R: 0, Sender: cfg.proposerIdx(h, 0), VR: -1, Val: val(h)},
+		Input{K: "v", H: h, R: 0, Sender: 0, Val: val(h)},
+		Input{K: "c", H: h, R: 0, Sender: 0, Nil: true},
+		Input{K: "t", Step: 2, H: h, R: 0},
+		Input{K: "p", H: h, R: 1, Sender: cfg.proposerIdx(h, 1), VR: -1, Val: val(h) + 7},
+		Input{K: "v", H: h, R: 1, Sender: 1, Val: val(h) + 7},
+		Input{K: "v", H: h + 1, R: 0, Sender: 0, Val: val(h + 1)})
+	return cfg, s, last
 }
 
 func scriptToks(s []Input) string {
@@ -983,11 +1043,22 @@ func main() {
 		script []Input
 		n      int
 		id     uint64
+		minIn  int
+		long   bool
 	}
 	var jobs []job
 	for i, d := range directed() {
 		c := d.Cfg
 		jobs = append(jobs, job{cfg: &c, script: append([]Input{}, d.Script...), id: uint64(1000 + i)})
+	}
+	// 256 committed heights: the crashed height is the one right after the first cleanup (a
+	// watermark or numbering error of the cleanup shows there); thorough: also two heights later
+	// and right after the second cleanup
+	for i, hts := range []int{256, f.Scale(0, 258), f.Scale(0, 512)} {
+		if hts > 0 {
+			c, sc, last := longRun(hts)
+			jobs = append([]job{{cfg: c, script: sc, id: uint64(2000 + i), minIn: last, long: true}}, jobs...)
+		}
 	}
 	root := lib.NewRNG(f.Seed)
 	nRandom := f.Scale(160, 1200)
@@ -1016,6 +1087,10 @@ func main() {
 			rn := &runner{f: f, res: res, drv: drv, base: filepath.Join(base, fmt.Sprintf("w%d", w))}
 			for j := range ch {
 				rn.exhaustive = j.script != nil
+				rn.minInput, rn.deep, rn.noFault = j.minIn, j.long, j.long
+				if j.long {
+					rn.res.Hit("long-run-family")
+				}
 				rn.rootCase(j.cfg, j.script, j.n, root.Fork(j.id+7777), nil)
 			}
 			if drv != nil {
